@@ -14,6 +14,7 @@ from .core.align import _check_stack_args, _get_axes, stack, concatenate, _check
 from .core.transform import interp_like, _interp_internal_from_weight, _interp_internal_get_weights, _interp_internal_maybe_sort
 from .core import pandas_obj
 from .core.bases import AbstractDataset, GetSetDelAttrMixin, OpMixin
+from .core.indexing import locate_many
 from .prettyprinting import repr_dataset
 
 class DatasetAxes(Axes):
@@ -702,8 +703,12 @@ class Dataset(AbstractDataset, dict, OpMixin, GetSetDelAttrMixin):
             return dataset
 
         # take axis, do not raise error
-        dataset = self.take_axis(values, axis=axis, indexing='label', 
-                                 mode='raise' if raise_error else 'clip')
+        # (exact look-up as in DimArray.reindex_axis: a look-up tolerance `tol` carried by the axis does not make neighbouring labels equal)
+        ax = self.axes[axis]
+        indices = locate_many(ax.values, values)
+        if raise_error and np.any(ax.values.take(indices) != values):
+            raise IndexError("Some values where not found in the axis ({}): {}.".format(ax.name, values[ax.values.take(indices) != values]))
+        dataset = self.take_axis(indices, axis=axis, indexing='position')
 
         # Replace mismatch with missing values?
         newax = dataset.axes[axis]
